@@ -31,7 +31,7 @@ def parseCase (line : String) : Option PCase :=
       if ks.isEmpty || ks.length > 9 then none
       let allowed : Nat → String ← match host with
         | "cmd" | "core" => some fun _ => "pfwkrchabyx"
-        | "legacy" => some fun _ => "pfwkrcasS"
+        | "legacy" | "lset" => some fun _ => "pfwkrcasS"
         | "mixed" => some fun i => if leg.getD i false then "pfwkrcasS" else "pfwkrchabyxsS"
         | _ => none
       let steps ← acts.mapM (parseStep ks.length allowed)
@@ -212,6 +212,46 @@ def modelThreads (n k : Nat) : String :=
   let ids := (M.Timer.allocThreads 1 sched).map (·.2)
   s!"ids:{if nodupB ids then "ok" else "dup"} n={ids.length}"
 
+/-! host `lset` (C13): occupancy of CLEARED_TIMER_IDS by the case's legacy timers after every step -/
+
+def digits (l : List Nat) : String := String.join (l.map toString)
+
+/-- `c<indices of timers whose id is in the set>/o<indices of outstanding timers>` -/
+def showSet (w : LWorld) : String :=
+  let idx := List.range w.timers.length
+  let c := idx.filter fun j => match w.timers[j]? with | some t => (match t.id with | some id => w.cleared.contains id | none => false) | none => false
+  let o := idx.filter fun j => match w.timers[j]? with | some t => t.id.isSome && !t.finished | none => false
+  s!"c{digits c}/o{digits o}"
+
+def lsetRun : LWorld → List (LAct × Nat) → List String
+  | _, [] => []
+  | w, (a, i) :: rest => let w' := (lstep w a i).1; showSet w' :: lsetRun w' rest
+
+def lsetSteps (c : PCase) : List (LAct × Nat) :=
+  c.steps.map (fun s => (toLAct s.1, s.2)) ++ [(.tick, c.kinds.length)]
+
+def modelLset (c : PCase) : String :=
+  String.intercalate " " ("set" :: lsetRun (mkLWorld baseCounter c.kinds) (lsetSteps c))
+
+def parseDigits (s : String) : Option (List Nat) :=
+  s.toList.mapM fun d => if d.isDigit then some (d.toNat - 48) else none
+
+def parseSetTok (tok : String) : Option (List Nat × List Nat) :=
+  match tok.splitOn "/" with
+  | [c, o] => if c.startsWith "c" && o.startsWith "o" then do pure (← parseDigits (c.drop 1).toString, ← parseDigits (o.drop 1).toString) else none
+  | _ => none
+
+/-- the clause of C13 for the cleared-timer set, judged on the implementation's line alone: after every step the set holds
+    only ids of timers that are still outstanding (`S.Timer.setBounded`) -/
+def oracleLset (c : PCase) (o : String) : String :=
+  match (o.trimAscii.toString.splitOn " ").filter (· ≠ "") with
+  | "set" :: toks =>
+    if toks.length != (lsetSteps c).length then "reject malformed-observation" else
+    match toks.mapM parseSetTok with
+    | none => "reject unparseable-observation"
+    | some sets => if sets.all fun s => S.Timer.setBounded s.1 s.2 then "ok" else "reject cleared-set-retains-finished-timer"
+  | _ => "reject unparseable-observation"
+
 def model (line : String) : String :=
   match threadsCase line with
   | some (n, k) => modelThreads n k
@@ -219,6 +259,7 @@ def model (line : String) : String :=
   match parseCase line with
   | none => "bad-case"
   | some c =>
+    if c.host == "lset" then modelLset c else
     let tc := typed c
     let (ids, recs) := runTyped tc
     let created := createdIds tc ids
@@ -280,6 +321,7 @@ def oracle (line : String) : String :=
     match parseCase c with
     | none => "bad-case"
     | some pc =>
+      if pc.host == "lset" then oracleLset pc o else
       match typed pc with
       | .command host ts steps =>
         let ids := ts.map (·.id)
